@@ -476,8 +476,27 @@ func c12Run(c *mon.Ctx, csAny any) {
 			out.CMove(1, a, b)
 			checkOut(bv, "CMove(1)")
 		case "bytes":
-			if got := a.Bytes(); !bytes.Equal(got, oracle.Bytes32(av)) {
+			got := a.Bytes()
+			if !bytes.Equal(got, oracle.Bytes32(av)) {
 				c.Fail(fmt.Sprintf("Bytes(%s) = %s", cs.A, mon.H(got)), "field-bytes", nil)
+			}
+
+			// the serialisation belongs to the caller: it survives the serialisation of other elements, and writing to it
+			// changes nothing
+			ov := oracle.FAdd(av, big.NewInt(12345))
+			other := mon.FE(ov).Bytes()
+			_, _ = mon.FE(oracle.FNeg(av)).Bytes(), field.New().One().Bytes()
+
+			if !bytes.Equal(got, oracle.Bytes32(av)) || !bytes.Equal(other, oracle.Bytes32(ov)) {
+				c.Fail(fmt.Sprintf("the slice returned by Bytes(%s) changed when other elements were serialised afterwards", cs.A), "field-bytes-not-retained", nil)
+			}
+
+			for i := range got[:cap(got)] {
+				got[:cap(got)][i] ^= 0x5a
+			}
+
+			if again := a.Bytes(); !bytes.Equal(again, oracle.Bytes32(av)) {
+				c.Fail(fmt.Sprintf("Bytes(%s) is wrong after the caller wrote to the slice an earlier call returned", cs.A), "field-bytes-shared", nil)
 			}
 		case "sqrtratio":
 			if bv.Sign() == 0 {
